@@ -129,6 +129,8 @@ package store
 //@ ghostvar rtopen int
 //@ ghostvar rtval iface
 //@ ghostvar trout iface
+//@ ghostvar rtmiss bool
+//@ ghostvar trerr bool
 //@ trusted func (r res.GetRequest) ResourceName() (s string)
 //@   ensures true
 //@ trusted func (r res.GetRequest) PathParams() (m map[string]string)
@@ -156,16 +158,22 @@ package store
 //@   ensures imp(isNil(err), !isNil(v))
 //@ func (o *storeHandler) getResource(r res.GetRequest)
 //@   requires o != nil && !isNil(r) && !isNil(o.st)
-//@   modifies ghost.gresp, ghost.gkind, ghost.gval, ghost.rtopen, ghost.rtval, ghost.trout, alloc
+//@   modifies ghost.gresp, ghost.gkind, ghost.gval, ghost.rtopen, ghost.rtval, ghost.trout, ghost.rtmiss, ghost.trerr, alloc
 //@   ghost call ReadTxn.Value#1 after :: set rtval = arg_v
 //@   ghost call Transformer.Transform#1 after :: set trout = arg_out
+//@   ghost entry :: set rtmiss = false
+//@   ghost entry :: set trerr = false
+//@   ghost call ReadTxn.Value#1 after :: set rtmiss = !isNil(arg_err)
+//@   ghost call Transformer.Transform#1 after :: set trerr = !isNil(arg_err)
+//@   # an error of the transformer is answered as an error (never with the default: changeHandler treats such a value as absent)
+//@   ensures transform.error: imp(trerr, gkind == 3)
 //@   # exactly one response, and the read transaction is closed on every path
 //@   ensures once: gresp == old(gresp) + 1
 //@   ensures closed: rtopen == old(rtopen)
 //@   # a missing value is served as the default as it is (with or without a transformer); a stored value is served
 //@   # through the transformer when there is one, unchanged otherwise; the resource type selects model or collection
-//@   ghost call GetRequest.Model#1 before :: assert served: ite(!isNil(err), ref(o.def) != 0 && typeIs(arg_model, "json.RawMessage") && same(unbox(arg_model, "json.RawMessage"), o.def), ite(isNil(o.trans), same(arg_model, rtval), same(arg_model, trout)))
-//@   ghost call GetRequest.Collection#1 before :: assert served: ite(!isNil(err), ref(o.def) != 0 && typeIs(arg_collection, "json.RawMessage") && same(unbox(arg_collection, "json.RawMessage"), o.def), ite(isNil(o.trans), same(arg_collection, rtval), same(arg_collection, trout)))
+//@   ghost call GetRequest.Model#1 before :: assert served: ite(rtmiss, ref(o.def) != 0 && typeIs(arg_model, "json.RawMessage") && same(unbox(arg_model, "json.RawMessage"), o.def), ite(isNil(o.trans), same(arg_model, rtval), same(arg_model, trout)))
+//@   ghost call GetRequest.Collection#1 before :: assert served: ite(rtmiss, ref(o.def) != 0 && typeIs(arg_collection, "json.RawMessage") && same(unbox(arg_collection, "json.RawMessage"), o.def), ite(isNil(o.trans), same(arg_collection, rtval), same(arg_collection, trout)))
 //@   ensures kind: imp(gkind == 1, o.typ == 1) && imp(gkind == 2, o.typ == 2)
 //@ func (o *storeHandler) changeHandler(id string, before interface{}, after interface{})
 //@   requires o != nil && o.s != nil && muxOK(o.s.Mux) && !isNil(o.s.logger)
